@@ -52,11 +52,28 @@ Ltac rel_pick unf :=
     | |- _ /\ _ = _ => split; [ unf; tauto | reflexivity ]
     end in go.
 
+(* path condition from path conditions, up to linear arithmetic over the (opaque) atoms *)
+Ltac cond_lra :=
+  intros;
+  repeat match goal with H : _ /\ _ |- _ => destruct H end;
+  repeat split; first [ assumption | exact I | lra ].
+
 (* as rel_pick, with a user tactic for the output equation *)
 Ltac rel_pick_eq unf fin :=
   red;
   let rec go :=
     lazymatch goal with
     | |- _ \/ _ => first [ left; go | right; go ]
-    | |- _ /\ _ = _ => split; [ unf; solve [ tauto | intuition lra ] | fin ]
+    | |- _ /\ _ = _ => split; [ unf; solve [ tauto | cond_lra ] | fin ]
     end in go.
+
+(* bring every propositional hypothesis (path conditions, validity facts) into the goal *)
+Ltac revert_props :=
+  repeat match goal with
+  | H : ?T |- _ => match type of T with Prop => revert H end
+  end.
+
+(* close a goal whose path conditions are contradictory (infeasible path kept by the tracer's relation store) *)
+Ltac infeasible unf :=
+  exfalso; unf; intros;
+  repeat match goal with H : _ /\ _ |- _ => destruct H end; lra.
